@@ -104,6 +104,8 @@ pub fn dispatch() -> bool {
                 writeln!(out, "panic {}", msg).unwrap()
             }
         }
+        // one answer per line, flushed at once: the checker's watchdog attributes a hang to the case that is being processed
+        out.flush().unwrap();
     }
     out.flush().unwrap();
     true
